@@ -115,6 +115,22 @@ pub fn check(s: &Scenario) -> CheckResult {
                 _ => raw.set_constant_acceleration_raw(s.v),
             }
             ensure!(st_bits_eq(raw, expect(s.v)), format!("C14/setter{}/raw", k), "raw setter {} with {:e} on {:?} gave {:?}", k, s.v, orig, raw);
+            // the value the state already holds in that component is an argument like any other: the higher derivatives are still zeroed
+            let held = [orig.position, orig.velocity, orig.acceleration][k as usize];
+            let (mut again, mut again_raw) = (orig, orig);
+            let pu = pd_unit(k);
+            let r = match k {
+                0 => again.set_constant_position(Quantity::new(held, Unit::new(pu.0, pu.1))),
+                1 => again.set_constant_velocity(Quantity::new(held, Unit::new(pu.0, pu.1))),
+                _ => again.set_constant_acceleration(Quantity::new(held, Unit::new(pu.0, pu.1))),
+            };
+            match k {
+                0 => again_raw.set_constant_position_raw(held),
+                1 => again_raw.set_constant_velocity_raw(held),
+                _ => again_raw.set_constant_acceleration_raw(held),
+            }
+            ensure!(r.is_ok() && st_bits_eq(again, expect(held)), format!("C14/setter{}/effect", k), "setter {} with the value {:e} the state {:?} already holds there returned {:?} and gave {:?}, expected {:?}", k, held, orig, r, again, expect(held));
+            ensure!(st_bits_eq(again_raw, expect(held)), format!("C14/setter{}/raw", k), "raw setter {} with the value {:e} the state {:?} already holds there gave {:?}, expected {:?}", k, held, orig, again_raw, expect(held));
         }
         Form::CommandFromState => {
             let [p, v, a] = s.s1;
